@@ -14,7 +14,8 @@ RULE = (
     "free-form Fortran program units generated from a grammar: assignments, calls and prints built from tokens and "
     "character literals (both quote kinds, doubled quotes, embedded ! & //), trailing and full-line comments (containing "
     "quotes and &), directive sentinels (!$omp, !$acc, !$, !dir$, !dec$), continuations with and without a leading &, "
-    "continuation inside a character literal, comment and blank lines interleaved in a continued statement, blank lines, "
+    "continuation inside a character literal, comment, blank and directive-sentinel lines interleaved in a continued statement "
+    "(the sentinel line is counted, the comment is not), blank lines, "
     "and nested #if/#ifdef/#ifndef/#elif/#else/#endif/#define/#undef lines; every text must pass `gfortran -cpp "
     "-fsyntax-only` silently. Oracle: the generator knows the role of every physical line (statement text, sentinel, "
     "directive, comment, blank), cross-checked by an independent reference scanner (harness error on disagreement); "
@@ -111,6 +112,9 @@ LITS = ["'plain'", '"dq"', "'it''s'", '"a!b"', "'c & d'", '"x // y"', "'say \"hi
         "'/*'", '"a /* b"', "'*/'",  # C comment markers mean nothing inside a Fortran literal
         "'x &! y'", '"fast &   ! furious"', "'a&!'", '"& !"', "'!&'", '"a ! b & c ! d"', "'&&'", "'! $omp'"]
 COMMENTS = ["! comment", "!comment & more", "! it's \"quoted\"", "!! double", "!   ", "! & ampersand &"]
+# roles of physical lines that are counted; "sentinel" is a directive sentinel line that sits between the lines of
+# a continued statement (top-level sentinels keep the role "code")
+COUNTED = ("code", "directive", "sentinel")
 SENTINELS = ["!$omp parallel", "!$omp end parallel", "!$acc kernels", "!$acc end kernels", "!$ x = 2", "!dir$ ivdep", "!dec$ novector", "!$OMP BARRIER"]
 
 
@@ -124,8 +128,15 @@ def case_strategy():
     trailing = st.one_of(st.just(""), st.just(""), st.sampled_from(COMMENTS).map(lambda c: "  " + c))
 
     @st.composite
+    def cont_sentinel(draw, indent):
+        """a full-line directive sentinel (conditional compilation `!$`, `!$omp&`, `!dir$` ...) between the lines of
+        a continued statement, outside any character literal: a counted line, unlike an ordinary comment there"""
+        t = draw(st.sampled_from(SENTINELS + ["!$   & omp_arg, &", "!$omp& private(x)", "!$acc& copy(y)", "!DIR$ IVDEP", "!$ y, &  ! trailing"]))
+        return (draw(st.sampled_from([indent, "", "  ", "\t"])) + t, "sentinel")
+
+    @st.composite
     def statement(draw, marker_id):
-        """-> list of (text, role) physical lines; role in code|comment|blank"""
+        """-> list of (text, role) physical lines; role in code|comment|blank|sentinel"""
         kind = draw(st.sampled_from(["assign", "marker", "string", "print", "assign", "marker"]))
         if kind == "assign":
             parts = ["x", "=", draw(expr_tok), "+", draw(expr_tok)]
@@ -152,8 +163,11 @@ def case_strategy():
             lines.append((t, "code"))
             if k < len(segs) - 1:
                 for _ in range(draw(st.sampled_from([0, 0, 1, 2]))):
-                    if draw(st.booleans()):
+                    what = draw(st.sampled_from(["comment", "blank", "sentinel"]))
+                    if what == "comment":
                         lines.append((indent + draw(st.sampled_from(COMMENTS)), "comment"))
+                    elif what == "sentinel":
+                        lines.append(draw(cont_sentinel(indent)))
                     else:
                         lines.append((draw(st.sampled_from(["", "   "])), "blank"))
         if kind == "string" and draw(st.integers(0, 2)) == 0:
@@ -208,6 +222,8 @@ def case_strategy():
                 out.append((f"{ind}     {amp}{draw(expr_tok)}, &" + draw(trailing), "code"))
                 if draw(st.booleans()):
                     out.append((ind + draw(st.sampled_from(COMMENTS)), "comment"))
+                if draw(st.integers(0, 2)) == 0:
+                    out.append(draw(cont_sentinel(ind)))
                 if draw(st.booleans()):
                     out.append(("#else", "directive"))
                     out.append((f"{ind}     {amp}0, &", "code"))
@@ -339,14 +355,14 @@ def check_case(case, res: Result):
         for text, rl, label in ((main, roles, "main"), (inc, inc_roles, "inc")):
             if text is None:
                 continue
-            by_construction = {i for i, r in enumerate(rl, 1) if r in ("code", "directive")}
+            by_construction = {i for i, r in enumerate(rl, 1) if r in COUNTED}
             sc, _ = scan(text.rstrip("\n"))
             if sc != by_construction:
                 raise core.HarnessError(f"reference scanner and generator disagree on {label}: scanner={sorted(sc)} generator={sorted(by_construction)}\n{text}")
         for fname, text, rl in ((name, main, roles), (incname, inc, inc_roles)):
             if text is None:
                 continue
-            exp = {i for i, r in enumerate(rl, 1) if r in ("code", "directive")}
+            exp = {i for i, r in enumerate(rl, 1) if r in COUNTED}
             exp_dir = {i for i, r in enumerate(rl, 1) if r == "directive"}
             try:
                 tree = file_parser.FileParser(os.path.join(d if fname == name else incdir, fname)).parse_file(language="fortran-free" if fname != name else None)
@@ -395,7 +411,7 @@ def check_case(case, res: Result):
         if nest:
             # the text reached through two include levels was scanned as Fortran (language inherited)
             t2 = state.get_tree(os.path.join(incdir, incname))
-            exp2 = {i for i, r in enumerate(inc_roles, 1) if r in ("code", "directive")}
+            exp2 = {i for i, r in enumerate(inc_roles, 1) if r in COUNTED}
             got2 = {ln for node in t2.walk() if isinstance(node, CodeNode) for ln in node.lines} if t2 is not None else None
             if t2 is None:
                 res.labels["nested-include-not-reached-by-any-define-set"] += 1
@@ -419,6 +435,9 @@ def check_case(case, res: Result):
                     if have != want:
                         vs.append(make_violation("conditional-selection", cj, {"file": fname, "line": ln, "platforms": sorted(want)}, {"platforms": sorted(have) if have is not None else None}))
                         return vs
+        contsent = any(r == "sentinel" for r in roles + (inc_roles or []))
+        if contsent:
+            res.labels["sentinel-inside-continued-statement"] += 1
         nt = (any(r == "comment" for r in roles) and "&" in main and any(r == "directive" for r in roles)) and bool(re.search(r"['\"][^'\"\n]*[!&][^'\"\n]*['\"]|!\$|!dir\$|!dec\$", main))
         res.case(key=[main, inc, case["defines"]], nontrivial=nt, sample={"main": main, "defines": case["defines"]} if nt else None, labels=["inc" if inc else "no-inc", case["ext"]])
     return vs
